@@ -191,6 +191,10 @@ class LocalMonitor:
         g['requested_non_dependency'] = F
         g['misdirected_ok'] = F
         g['inval_pending'] = F
+        g['wrong_actual'] = F
+        for d in range(me):
+            for kind in ('Build', 'Service'):
+                g['act.%d.%s' % (d, kind)] = F
         return g
 
     def step(self, sysm, S, obs, S2, g, k):
@@ -254,6 +258,23 @@ class LocalMonitor:
             inval_now = z3.Or([obs.get('recv', (me, ('Invalidated', 'Build', 't%d' % d))) for d in range(me)] + [obs.get('handle_inval', me)])
             g2['inval_pending'] = z3.If(decide, F, z3.If(inval_now, T, g['inval_pending']))
             g2['ok_without_cause'] = z3.Or(g2['ok_without_cause'], z3.And(res_ok, emits_okb, g['inval_pending'], z3.Not(inval_now)))
+        if kindme == 'aggregate':
+            # `actual` of an aggregate acknowledgement = some dependency acknowledged that kind with actual
+            for kind in ('Build', 'Service'):
+                acts = []
+                for d in range(me):
+                    key = (me, ('Ok', kind, 't%d' % d))
+                    gfl = obs.ev.get('recv', {}).get(key)
+                    cur = g['act.%d.%s' % (d, kind)]
+                    if gfl is not None and gfl[1] is not None:
+                        cur = z3.If(gfl[0], gfl[1], cur)
+                    inv = obs.get('recv', (me, ('Invalidated', kind, 't%d' % d)))
+                    g2['act.%d.%s' % (d, kind)] = cur
+                    acts.append(z3.And(sysm.dep[me][d], cur))
+                want = z3.Or(acts + [F])
+                for key, (gg, fl) in obs.ev.get('emit', {}).items():
+                    if key[0] == me and key[2] == ('Ok', kind, mename) and fl is not None:
+                        g2['wrong_actual'] = z3.Or(g2['wrong_actual'], z3.And(gg, fl != want))
         # requests only go to declared dependencies
         for d in range(sysm.n):
             if d == me:
